@@ -4,6 +4,7 @@
 -/
 import Mrm.Spec.Access
 import Mrm.Proofs.HistOk
+import Mrm.Proofs.ViewsFrom
 
 namespace Mrm
 
@@ -73,8 +74,8 @@ theorem storyEnd_total {s : Xml} {a b d : Option Nat} (ha : payloadTime s "Story
   cases b <;> cases st <;> cases d <;> exact ⟨_, rfl⟩
 
 theorem storyView_total {s : Xml} (hok : storyOk s = true) (ht : storyTimesOk s = true)
-    (p : Option Nat) (offs : Option (List (Option String × Nat))) :
-    ∃ v, storyView s p offs = .ok v := by
+    (p : Option Nat) (off : Option Nat) :
+    ∃ v, storyView s p off = .ok v := by
   obtain ⟨_, _, d, hd⟩ := storyOk_parts hok
   unfold storyTimesOk at ht
   simp only [Bool.and_eq_true] at ht
@@ -86,22 +87,19 @@ theorem storyView_total {s : Xml} (hok : storyOk s = true) (ht : storyTimesOk s 
     cases h : payloadTime s "StoryEnded" with
     | ok a => exact ⟨a, rfl⟩
     | error e => rw [h] at ht; simp at ht
-  let off := offs.bind (fun tbl => lookupLast tbl (Xml.childText (some s) "storyID"))
   obtain ⟨st, hst⟩ := storyStart_total ha p off
   obtain ⟨en, hen⟩ := storyEnd_total ha hb hd p off
   unfold storyView
-  simp only [hd, bind, Except.bind, pure, Except.pure]
-  simp only [off] at hst hen
-  simp only [hst, hen]
+  simp only [hd, bind, Except.bind, pure, Except.pure, hst, hen]
   exact ⟨_, rfl⟩
 
 /-- what a successful `storyView` is made of -/
-theorem storyView_inv {s : Xml} {p : Option Nat} {offs : Option (List (Option String × Nat))}
-    {v : StoryView} (h : storyView s p offs = .ok v) :
+theorem storyView_inv {s : Xml} {p : Option Nat} {off : Option Nat}
+    {v : StoryView} (h : storyView s p off = .ok v) :
     ∃ d st en,
       storyDuration s = .ok d ∧
-      storyStart s p (offs.bind (fun tbl => lookupLast tbl (Xml.childText (some s) "storyID"))) = .ok st ∧
-      storyEnd s p (offs.bind (fun tbl => lookupLast tbl (Xml.childText (some s) "storyID"))) = .ok en ∧
+      storyStart s p off = .ok st ∧
+      storyEnd s p off = .ok en ∧
       v.id = Xml.childText (some s) "storyID" ∧ v.slug = Xml.childText (some s) "storySlug" ∧
       v.duration = d ∧ v.start = st ∧ v.stop = en ∧ v.items = (s.findall "item").map itemView := by
   unfold storyView at h
@@ -125,8 +123,8 @@ theorem storyView_inv {s : Xml} {p : Option Nat} {offs : Option (List (Option St
 
 theorem roStories_inv {rc : Xml} {vs : List StoryView} (h : roStories rc = .ok vs) :
     ((rc.findall "story") = [] ∧ vs = []) ∨
-    ∃ st offs, roStart rc = .ok st ∧ storyOffsets (rc.findall "story") = .ok offs ∧
-      mapExcept (fun s => storyView s st offs) (rc.findall "story") = .ok vs := by
+    ∃ st offs, roStart rc = .ok st ∧ storyOffsetsFrom (rc.findall "story") 0 = .ok offs ∧
+      viewsFrom st (rc.findall "story") offs = .ok vs := by
   unfold roStories at h
   simp only at h
   split at h
@@ -141,7 +139,7 @@ theorem roStories_inv {rc : Xml} {vs : List StoryView} (h : roStories rc = .ok v
     | ok st =>
       rw [hst] at h
       simp only at h
-      cases ho : storyOffsets (rc.findall "story") with
+      cases ho : storyOffsetsFrom (rc.findall "story") 0 with
       | error e => rw [ho] at h; cases h
       | ok offs =>
         rw [ho] at h
@@ -202,11 +200,8 @@ theorem roStories_total {rc : Xml} (hok : rcOk rc.kids = true)
   · exact ⟨[], rfl⟩
   · rename_i hne
     obtain ⟨r2, hr2⟩ := storyOffsetsFrom_ok (rc.findall "story") 0 (fun s hs => (hss s hs).1)
-    have hoffs : storyOffsets (rc.findall "story") = .ok (some r2) := by
-      unfold storyOffsets
-      simp only [hne, Bool.false_eq_true, if_false, hr2, Except.map]
-    obtain ⟨vs, hvs⟩ := mapExcept_total (fun s => storyView s st (some r2)) (rc.findall "story")
-      (fun s hs => storyView_total (hss s hs).1 (hss s hs).2 st (some r2))
-    exact ⟨vs, by simp only [hst, hoffs, hvs, bind, Except.bind]⟩
+    obtain ⟨vs, hvs⟩ := viewsFrom_total st (rc.findall "story") r2
+      (fun s hs o => storyView_total (hss s hs).1 (hss s hs).2 st o)
+    exact ⟨vs, by simp only [hst, hr2, hvs, bind, Except.bind]⟩
 
 end Mrm
